@@ -395,6 +395,32 @@ func TestCheck(t *testing.T) {
 		})
 	})
 
+	// Phase W3: a text comes back after N other distinct texts have been parsed (N on a ladder around the powers of two): whatever
+	// the library remembers about earlier inputs, the answer for a text depends on that text only.
+	r.Phase("W3: a text parsed, then N distinct other texts (N = 1..200000 on a ladder around powers of two), then the same text again", func() {
+		r.Serial(func(w *vkit.W) {
+			filler := 0
+			for li, n := range []int{1, 2, 3, 31, 32, 33, 63, 64, 65, 127, 128, 129, 255, 256, 257, 511, 512, 513, 1023, 1024, 1025, 2047, 2048, 2049, 4096, 8192, 65536, 200000} {
+				x := "9.8." + strconv.Itoa(li) + "-rc." + strconv.Itoa(n) + "+b"
+				y := "v9.8." + strconv.Itoa(li) + "-rc." + strconv.Itoa(n)
+				judge(Case{Kind: "text", Text: vkit.B(x)}, w)
+				judge(Case{Kind: "text", Text: vkit.B(y)}, w)
+				for k := 0; k < n; k++ {
+					filler++
+					t := "1." + strconv.Itoa(filler%97) + "." + strconv.Itoa(filler)
+					if filler%2 == 0 {
+						_, _ = sem.Parse(t)
+					} else {
+						_, _ = sem.ParseTag([]byte("v" + t))
+					}
+				}
+				judge(Case{Kind: "text", Text: vkit.B(x)}, w)
+				judge(Case{Kind: "text", Text: vkit.B(y)}, w)
+				w.EvalRandom(vkit.Hash64("W3", x), true)
+			}
+		})
+	})
+
 	L := r.Pick(7, 9)
 	r.Phase(fmt.Sprintf("A: every string over {0,1,9,a,Z,-,.,+,v} up to length %d x 17 entry points", L), func() {
 		for n := 0; n <= L; n++ {
